@@ -21,7 +21,7 @@ def bounds(tier):
 
 def conditions(tier):
     q = tier == "quick"
-    cs = _d.doc_conditions(tier, eols=("\n",))
+    cs = _d.doc_conditions(tier, eols=("\n",), deep=True)
     if not q:
         cs += _d.doc_conditions("quick", eols=("\r\n",))
     if q:
